@@ -748,11 +748,12 @@ impl MDL {
 
                     if !shape_values.is_empty() {
                         for shape_value in shape_values {
-                            let old_vertex =
-                                vertices[indices[shape_value.base_indices_index as usize] as usize];
+                            // base_indices_index counts from the start of the LOD's index buffer, our indices from the mesh's
+                            let base_index = shape_value.base_indices_index as usize
+                                - model.meshes[j as usize].start_index as u16 as usize;
+                            let old_vertex = vertices[indices[base_index] as usize];
                             let new_vertex = vertices[shape_value.replacing_vertex_index as usize];
-                            let vertex = &mut morphed_vertices
-                                [indices[shape_value.base_indices_index as usize] as usize];
+                            let vertex = &mut morphed_vertices[indices[base_index] as usize];
 
                             vertex.position[0] = new_vertex.position[0] - old_vertex.position[0];
                             vertex.position[1] = new_vertex.position[1] - old_vertex.position[1];
